@@ -458,6 +458,42 @@ def run(ctx):
     ctx.exhaustive[R] = True
 
     # ------------------------------------------------------------------
+    R = "C19.dictionary_construction"
+    ctx.rule(R, "the private construction from a dictionary, which clone() "
+             "uses, takes the values as they are at every validation level: "
+             "it calls no validator and cannot raise, so any line that "
+             "exists -- valid or not -- can be cloned (merge and multiply "
+             "clone lines after they have started changing the graph)",
+             floor=8)
+    seg1c = repo.cls("line.segment.GFA1")
+    f_init = ctx.anchor("Line.__init__", seg1c.find_method("__init__"))
+
+    class InitHooks(LineHooks):
+        def before_inline(self, ev, func, args, kwargs):
+            if func is not f_init and args and isinstance(args[0], Abs) and \
+                    args[0].label == "new":
+                ev.events.append(("call", func.name))
+                return None
+            return NotImplemented
+    for vl, virtual in itertools.product((0, 1, 2, 3), (False, True)):
+        ctx.instance(R)
+        new = Abs(seg1c, label="new")
+        data = {"name": "a", "sequence": "ACGT", "LN": 99}
+        out = eval_function(repo, f_init, [new, data],
+                            {"vlevel": vl, "virtual": virtual,
+                             "version": "gfa1"}, hooks=InitHooks(repo))
+        calls = [e[1] for e in out[2] if e[0] == "call"]
+        ok = out[0] == "return" and not calls and \
+            new.attrs.get("_data") == data and \
+            new.attrs.get("_gfa") is None and new.attrs.get("_refs") == {}
+        ctx.oblige(ok)
+        if not ok:
+            ctx.violation(R, f_init.short, "vlevel=%d,virtual=%s" % (
+                vl, virtual), "outcome %r; calls on the new line: %r; _data "
+                "%r" % (out[0:2], calls, new.attrs.get("_data")))
+    ctx.exhaustive[R] = True
+
+    # ------------------------------------------------------------------
     R = "C19.construction_attributes"
     ctx.rule(R, "every attribute that the construction of a line from text "
              "stores on the line outside _data/_datatype (and that the "
